@@ -49,7 +49,9 @@ class Known:
         if os.path.exists(KNOWN_FILE):
             data = json.load(open(KNOWN_FILE))
             for f in data.get("findings", []):
-                if f.get("property") == prop and f.get("status") == "open":
+                props = f.get("property")
+                props = props if isinstance(props, list) else [props]
+                if prop in props and f.get("status") == "open":
                     self.items.append(f)
 
     def matching(self, features: dict):
